@@ -250,6 +250,15 @@ def certFor (raw : List Cfg) (name : Bytes) : Option Bytes :=
 
 /-- the ECDSA CBC suites usable below TLS 1.2 (the test certificates are ECDSA P-256) -/
 def cbcECDSA : List Nat := [0xc009, 0xc00a]
+/-- the ECDSA suites usable at TLS 1.2 -/
+def ecdsa12 : List Nat := [0xc02c, 0xc02b, 0xcca9, 0xc00a, 0xc009]
+
+/-- can version `v` be negotiated with an ECDSA certificate and the configured suites
+(TLS 1.3 suites are not configurable) -/
+def usable (v : Nat) (ciphers : List Nat) : Bool :=
+  if v ≥ tls13 then true
+  else if v = tls12 then ciphers.any (fun x => ecdsa12.contains x)
+  else ciphers.any (fun x => cbcECDSA.contains x)
 
 /-- a client offering versions `cmin..cmax` with server name `sni` against the listener of `raw`:
 config by `pipeline`, certificate by `certFor`, version = the highest common one -/
@@ -264,7 +273,7 @@ def handshake (aesni : Bool) (raw : List Cfg) (sni : Bytes) (cmin cmax : Nat) (l
       | some san =>
         let v := min cmax b.maxV
         if v < max cmin b.minV then .fail
-        else if v < tls12 ∧ !(b.ciphers.any (fun x => cbcECDSA.contains x)) then .fail
+        else if !usable v b.ciphers then .fail
         else .ok v san (b.clientAuth != 0)
   | _ => .fail
 
